@@ -40,7 +40,9 @@ AdvanceSt(p, st, prev, c) ==
          [] c \in Control \ {"NL"} -> [pos |-> next, st |-> "ctrl"]
          [] c \in {"COMB", "EXT3", "VS"} ->
                 (IF st = "ctrl" THEN [pos |-> next, st |-> "other"]
-                 ELSE [pos |-> same, st |-> IF st = "emoji" THEN "emoji" ELSE "other"])
+                 \* (in the dependency's segmenter an emoji cluster stays an emoji cluster through any mix
+                 \*  of Extend characters and joiners; only a joiner directly before an emoji glues it)
+                 ELSE [pos |-> same, st |-> IF st \in {"emoji", "emojizwj"} THEN "emoji" ELSE "other"])
          [] c = "ZWJ" ->
                 (IF st = "ctrl" THEN [pos |-> next, st |-> "other"]
                  \* (the dependency's segmenter also lets a run of joiners keep the emoji sequence open)
